@@ -21,6 +21,8 @@ META = {
 
 
 def run(ctx):
+    from ..memo import check_memo_keys
+    check_memo_keys(ctx, ctx.repo, 'pydl/pydlutils/bspline.py', 'bspline', 'C08.MEMO-KEY')
     check_value_unsort(ctx, ctx.repo, 'C08.UNSORT')
     check_pad(ctx, ctx.repo, 'C08.PAD')
     check_cover(ctx, ctx.repo, 'C08.COVER')
